@@ -59,6 +59,7 @@ func GenProgram(t *rapid.T, backend sim.Backend, nClients int) (keys []string, s
 		// unistore a pessimistic txn therefore never both locks and writes-without-locking one key: each key is
 		// either in its unlocked set (written without lock, never locked) or always locked first.
 		unlocked := map[string]bool{}
+		insertedKeys := map[string]bool{}
 		if pess && backend == sim.Uni {
 			for _, k := range keys {
 				if rapid.IntRange(0, 3).Draw(t, "unlockedkey") == 0 {
@@ -81,7 +82,10 @@ func GenProgram(t *rapid.T, backend sim.Backend, nClients int) (keys []string, s
 		nOps := rapid.IntRange(1, 6).Draw(t, "nops")
 		for j := 0; j < nOps; j++ {
 			ops := []string{"get", "get", "batchget", "iter", "iterrev", "set", "set", "set", "insert", "delete"}
-			if pess {
+			// unistore records the commit of a lock-only (Op_Lock) key only if it is the primary, so a resolver cannot
+			// tell a committed lock-only secondary of an async-commit transaction from a missing one (TiKV writes a
+			// Lock record): no lock-only keys there (no bare lock calls, no pessimistic insert-then-delete)
+			if pess && backend != sim.Uni {
 				ops = append(ops, "lock", "lock")
 			}
 			s := &sim.Step{Txn: i, Op: rapid.SampledFrom(ops).Draw(t, "op")}
@@ -101,6 +105,12 @@ func GenProgram(t *rapid.T, backend sim.Backend, nClients int) (keys []string, s
 				if pess && backend == sim.Uni {
 					if unlocked[s.Keys[0]] && s.Op == "insert" {
 						s.Op = "set" // a pessimistic insert is a locked statement
+					}
+					if s.Op == "delete" && insertedKeys[s.Keys[0]] {
+						s.Op, s.Val = "set", fmt.Sprintf("v%d.%d", i, j)
+					}
+					if s.Op == "insert" {
+						insertedKeys[s.Keys[0]] = true
 					}
 					s.LockFirst = !unlocked[s.Keys[0]] && s.Op != "insert"
 				} else {
